@@ -683,8 +683,51 @@ func c07Canonical(c *Ctx) {
 		}
 	}
 	c.AtLeast("R4", "writers of Pointer.Canonical", n, 2)
+	emptyShortcutRule(c, "R4")
+	// decodeKV receives the trimmed raw bytes
+	for _, ci := range CallsIn(fn, "lfs.decodeKV") {
+		a := ci.Common().Args[0]
+		good := false
+		if call, _, ok := CallResult(a); ok && CalleeName(call.Common()) == "bytes.TrimSpace" && isRaw(call.Call.Args[0]) {
+			good = true
+		}
+		if isRaw(a) {
+			good = true
+		}
+		c.Check(good, "R4", "DecodeFrom:parses-all-bytes-read", p.InstrPos(ci), "the parser sees all bytes read (whitespace-trimmed)", "decodeKV is not given the bytes that were read")
+	}
+}
+
+// emptyShortcutRule: DecodeFrom returns the empty pointer only when zero bytes were read
+// (shared by C07.R4, C08.R7 and C01.R7).
+func emptyShortcutRule(c *Ctx, rule string) {
+	p := c.P
+	fn := p.Fn("lfs", "DecodeFrom")
+	if fn == nil {
+		c.Missing(rule, "lfs.DecodeFrom", "not found")
+		return
+	}
+	var raw ssa.Value
+	for _, b := range fn.Blocks {
+		for _, in := range b.Instrs {
+			if sl, ok := in.(*ssa.Slice); ok && sl.High != nil {
+				if call, idx, isRes := CallResult(sl.High); isRes && idx == 0 && nameIn(CalleeName(call.Common()), []string{"io.ReadFull", "io.ReadAtLeast", "(io.Reader).Read"}) {
+					if Unwrap(call.Call.Args[len(call.Call.Args)-1]) == Unwrap(sl.X) || len(call.Call.Args) > 1 && Unwrap(call.Call.Args[1]) == Unwrap(sl.X) {
+						raw = sl
+					}
+				}
+			}
+		}
+	}
+	if raw == nil {
+		c.Undecided(rule, "DecodeFrom:empty-only-for-zero-bytes", p.Pos(fn.Pos()), "cannot identify the bytes read")
+		return
+	}
+	isRaw := func(v ssa.Value) bool { return Unwrap(v) == raw }
+	n := 0
 	// the empty-pointer shortcut only for zero bytes read
 	for _, ci := range CallsIn(fn, "lfs.EmptyPointer") {
+		n++
 		pass := PassEdges(fn, func(cond ssa.Value) (bool, bool) {
 			op, x, y, ok := BinCmp(cond)
 			if !ok {
@@ -707,20 +750,9 @@ func c07Canonical(c *Ctx) {
 			return false, false
 		})
 		ok, path := Guarded(fn.Blocks[0], ci, pass, nil)
-		c.Check(ok && len(pass) > 0, "R4", "DecodeFrom:empty-only-for-zero-bytes", p.InstrPos(ci), "the empty pointer is returned only when zero bytes were read", "input that is not empty (e.g. whitespace only) can decode as the empty pointer: "+path)
+		c.Check(ok && len(pass) > 0, rule, "DecodeFrom:empty-only-for-zero-bytes", p.InstrPos(ci), "the empty pointer is returned only when zero bytes were read", "input that is not empty (e.g. whitespace only) can decode as the empty pointer: "+path)
 	}
-	// decodeKV receives the trimmed raw bytes
-	for _, ci := range CallsIn(fn, "lfs.decodeKV") {
-		a := ci.Common().Args[0]
-		good := false
-		if call, _, ok := CallResult(a); ok && CalleeName(call.Common()) == "bytes.TrimSpace" && isRaw(call.Call.Args[0]) {
-			good = true
-		}
-		if isRaw(a) {
-			good = true
-		}
-		c.Check(good, "R4", "DecodeFrom:parses-all-bytes-read", p.InstrPos(ci), "the parser sees all bytes read (whitespace-trimmed)", "decodeKV is not given the bytes that were read")
-	}
+	c.AtLeast(rule, "empty-pointer shortcut sites", n, 1)
 }
 
 func c07Encoder(c *Ctx) {
